@@ -22,8 +22,9 @@ Find(vs, dev, name) == IF \E i \in DOMAIN vs : vs[i].dev = dev /\ vs[i].name = n
                        THEN CHOOSE i \in DOMAIN vs : vs[i].dev = dev /\ vs[i].name = name ELSE 0
 \* one vector as the client sees it versus the device's truth: state, metadata, exactly the enabled elements with their
 \* values; a BLOB element may still be absent on the client (a definition carries no payload)
-ElemOK(kind, t, m) == /\ t[1] = m[1] /\ t[3] = m[3]
-                      /\ IF kind = "blob" THEN m[2] \in {None, t[2]} ELSE m[2] = t[2]
+ElemOKx(kind, t, m, strict) == /\ t[1] = m[1] /\ t[3] = m[3]
+                               /\ IF kind = "blob" /\ ~strict THEN m[2] \in {None, t[2]} ELSE m[2] = t[2]
+ElemOK(kind, t, m) == ElemOKx(kind, t, m, FALSE)
 \* (noblob: the client never enabled BLOBs, so by the protocol it receives no setBLOBVector at all: the state of a BLOB
 \*  property is then unknowable for it, like its payload)
 VecOKx(t, m, noblob) ==
@@ -32,9 +33,16 @@ VecOKx(t, m, noblob) ==
                /\ \A i \in DOMAIN t.els : ElemOK(t.kind, t.els[i], m.els[i])
 VecOK(t, m) == VecOKx(t, m, FALSE)
 \* C01: exactly the device's enabled properties, and no others
-FullView(truth, view) ==
+\* (Strict: the properties the last operation republished under global send order; their BLOBs must have arrived)
+\*  and only for a client that already knew the device before the operation, i.e. whose enableBLOB for it had taken effect)
+IsStrict(t, before) == /\ \E k \in DOMAIN E.strict : E.strict[k][1] = t.dev /\ E.strict[k][2] = t.name
+                       /\ \E j \in DOMAIN before : before[j].dev = t.dev
+StrictBlobOK(t, m, before) == IsStrict(t, before) => \A i \in DOMAIN t.els : i \in DOMAIN m.els => m.els[i][2] = t.els[i][2]
+FullViewx(truth, view, before) ==
   /\ \A i \in DOMAIN truth : Find(view, truth[i].dev, truth[i].name) # 0 /\ VecOK(truth[i], view[Find(view, truth[i].dev, truth[i].name)])
+                                /\ StrictBlobOK(truth[i], view[Find(view, truth[i].dev, truth[i].name)], before)
   /\ \A j \in DOMAIN view : Find(truth, view[j].dev, view[j].name) # 0
+FullView(truth, view) == FullViewx(truth, view, <<>>)
 \* a snooping client asked for one device (or one property): it has at least that, and whatever it has is true
 ScopedView(truth, view, dev, name) ==
   LET InScope(d, n) == d = dev /\ (name = None \/ n = name) IN
@@ -44,7 +52,7 @@ ScopedView(truth, view, dev, name) ==
 C01OK == \A k \in DOMAIN E.views :
            LET w == E.views[k] IN
            IF w.kind = "snoop" THEN (w.scope[1] = "*mixed*" \/ ScopedView(E.truth, w.view, w.scope[1], w.scope[2]))
-           ELSE FullView(E.truth, w.view)
+           ELSE FullViewx(E.truth, w.view, IF l > 1 /\ k \in DOMAIN Tr[l - 1].views /\ w.kind = "net" THEN Tr[l - 1].views[k].view ELSE <<>>)
 
 (* C08: the deployment of the BLOB runs has vector IMG with elements frame (published by the driver, token "P") and thumb
    (uploaded by the client, token "Q") and a text vector NOTE *)
